@@ -42,39 +42,38 @@ theorem envS (w s) : envOf w s DECIMAL_SCALE_ENV_VAR = s := by
   have : DECIMAL_SCALE_ENV_VAR ≠ DECIMAL_WIDTH_ENV_VAR := by decide
   simp [envOf, this]
 
-/-! ### acceptance ⇔ documented ranges -/
+/-- unfold the transcription and the documented predicates, split every `if`, finish with linear
+    arithmetic.  Written against the *shape* "assignments, conditional assignments, guarded raises", so that it
+    keeps working when the body of `set_decimal_config` is edited within that shape. -/
+macro "cfg" : tactic => `(tactic|
+  (simp only [Accepted, setDecimalConfig, envW, envS, WidthDoc, ScaleDoc, DocOK, ValidDuckDecimal, initial, decimalType,
+      docWidthMax, docWidthMin, docWidthDisable, docWidthDefault, docWidthDisableMeans,
+      docScaleMin, docScaleMax, docScaleDisable, docScaleDefault, docScaleDisableMeans,
+      MIN_DECIMAL_SCALE, MAX_DECIMAL_SCALE, MIN_DECIMAL_WIDTH, MAX_DECIMAL_WIDTH, DISABLE_VALUE,
+      DEFAULT_DECIMAL_WIDTH, DEFAULT_DECIMAL_SCALE, Option.getD_some, Option.getD_none] at * <;>
+   (repeat' split) <;> simp_all <;> omega))
+
+/-! ### acceptance ⇔ documented ranges
+
+`initial` is the state of the module globals when the process starts: these theorems describe the first
+call; `no_carry_over_full_or_counter` below says whether later calls behave the same.  The effective value
+of a variable is its integer value when set and the documented default when unset. -/
 
 /-- partial (true on every tree seen so far): as long as the effective width does not exceed the
     documented maximum, a setting is accepted exactly when both values are documented values.
-    All integers, all prior states. -/
-theorem accept_iff_doc_ranges_partial (w s : Option Int) (g : St) (h : w.getD g.w ≤ docWidthMax) :
-    Accepted w s g ↔ (WidthDoc (w.getD g.w) ∧ ScaleDoc (s.getD g.s)) := by
-  unfold Accepted setDecimalConfig WidthDoc ScaleDoc DocOK
-  rw [envW, envS]
-  simp only [docWidthMax, docWidthMin, docWidthDisable, docScaleMin, docScaleMax, docScaleDisable,
-    MIN_DECIMAL_SCALE, MAX_DECIMAL_SCALE, MIN_DECIMAL_WIDTH, MAX_DECIMAL_WIDTH, DISABLE_VALUE] at *
-  generalize w.getD g.w = W at *
-  by_cases hW : W = -1 <;> simp only [hW, if_true, if_false] <;>
-  generalize s.getD g.s = S at * <;>
-  by_cases hS : S = -1 <;> simp only [hS, if_true, if_false] <;>
-  (repeat' split) <;> simp_all <;> omega
+    All integers (and "unset") for both variables. -/
+theorem accept_iff_doc_ranges_partial (w s : Option Int) (h : w.getD docWidthDefault ≤ docWidthMax) :
+    Accepted w s initial ↔ (WidthDoc (w.getD docWidthDefault) ∧ ScaleDoc (s.getD docScaleDefault)) := by
+  cases w <;> cases s <;> cfg
 
 /-- whatever is rejected is outside the documented values (no documented setting is refused) -/
-theorem reject_only_outside_doc (w s : Option Int) (g : St) :
-    ¬ Accepted w s g → ¬ (WidthDoc (w.getD g.w) ∧ ScaleDoc (s.getD g.s)) := by
-  unfold Accepted setDecimalConfig WidthDoc ScaleDoc DocOK
-  rw [envW, envS]
-  simp only [docWidthMax, docWidthMin, docWidthDisable, docScaleMin, docScaleMax, docScaleDisable,
-    MIN_DECIMAL_SCALE, MAX_DECIMAL_SCALE, MIN_DECIMAL_WIDTH, MAX_DECIMAL_WIDTH, DISABLE_VALUE] at *
-  generalize w.getD g.w = W at *
-  by_cases hW : W = -1 <;> simp only [hW, if_true, if_false] <;>
-  generalize s.getD g.s = S at * <;>
-  by_cases hS : S = -1 <;> simp only [hS, if_true, if_false] <;>
-  (repeat' split) <;> simp_all <;> omega
+theorem reject_only_outside_doc (w s : Option Int) :
+    ¬ Accepted w s initial → ¬ (WidthDoc (w.getD docWidthDefault) ∧ ScaleDoc (s.getD docScaleDefault)) := by
+  cases w <;> cases s <;> cfg
 
 /-- the full statement of the property … -/
 def AcceptIffDoc : Prop :=
-  ∀ (w s : Option Int) (g : St), Accepted w s g ↔ (WidthDoc (w.getD g.w) ∧ ScaleDoc (s.getD g.s))
+  ∀ (w s : Option Int), Accepted w s initial ↔ (WidthDoc (w.getD docWidthDefault) ∧ ScaleDoc (s.getD docScaleDefault))
 
 /-- … or its refutation by the width `docWidthMax + 7` (= 45): accepted although undocumented, and the
     resulting DECIMAL type is one DuckDB refuses. -/
@@ -84,119 +83,81 @@ theorem accept_iff_doc_ranges_full_or_counter :
       ∧ ¬ ValidDuckDecimal (setDecimalConfig (envOf (some (docWidthMax + 7)) none) initial).1) := by
   first
     | exact Or.inr (by decide +kernel)
-    | (left
-       intro w s g
-       unfold Accepted setDecimalConfig WidthDoc ScaleDoc DocOK
-       rw [envW, envS]
-       simp only [docWidthMax, docWidthMin, docWidthDisable, docScaleMin, docScaleMax, docScaleDisable,
-         MIN_DECIMAL_SCALE, MAX_DECIMAL_SCALE, MIN_DECIMAL_WIDTH, MAX_DECIMAL_WIDTH, DISABLE_VALUE] at *
-       generalize w.getD g.w = W at *
-       by_cases hW : W = -1 <;> simp only [hW, if_true, if_false] <;>
-       generalize s.getD g.s = S at * <;>
-       by_cases hS : S = -1 <;> simp only [hS, if_true, if_false] <;>
-       (repeat' split) <;> simp_all <;> omega)
+    | (left; intro w s; cases w <;> cases s <;> cfg)
 
 /-- a rejected setting is reported with the offending variable, its value, and the documented bounds -/
-theorem reject_reports_doc_bounds (w s : Option Int) (g : St) (e : ConfigError)
-    (h : (setDecimalConfig (envOf w s) g).2 = some e) :
+theorem reject_reports_doc_bounds (w s : Option Int) (e : ConfigError)
+    (h : (setDecimalConfig (envOf w s) initial).2 = some e) :
     e.code = "0-4-1-1" ∧ e.disableValue = docWidthDisable ∧
     ((e.envVar = DECIMAL_SCALE_ENV_VAR ∧ e.minValue = docScaleMin ∧ e.maxValue = docScaleMax ∧ ¬ ScaleDoc e.value)
      ∨ (e.envVar = DECIMAL_WIDTH_ENV_VAR ∧ e.minValue = docWidthMin ∧ e.maxValue = docWidthMax
           ∧ ¬ WidthDoc e.value)) := by
   revert h
-  unfold setDecimalConfig WidthDoc ScaleDoc DocOK
-  rw [envW, envS]
-  simp only [docWidthMax, docWidthMin, docWidthDisable, docScaleMin, docScaleMax, docScaleDisable,
-    MIN_DECIMAL_SCALE, MAX_DECIMAL_SCALE, MIN_DECIMAL_WIDTH, MAX_DECIMAL_WIDTH, DISABLE_VALUE] at *
-  generalize w.getD g.w = W at *
-  by_cases hW : W = -1 <;> simp only [hW, if_true, if_false] <;>
-  generalize s.getD g.s = S at * <;>
-  by_cases hS : S = -1 <;> simp only [hS, if_true, if_false] <;>
-  (repeat' split) <;> intro h <;> simp_all <;> (try subst h) <;> simp_all <;> omega
+  cases w <;> cases s <;>
+  (simp only [setDecimalConfig, envW, envS, WidthDoc, ScaleDoc, DocOK, initial,
+      docWidthMax, docWidthMin, docWidthDisable, docScaleMin, docScaleMax, docScaleDisable,
+      MIN_DECIMAL_SCALE, MAX_DECIMAL_SCALE, MIN_DECIMAL_WIDTH, MAX_DECIMAL_WIDTH, DISABLE_VALUE,
+      DEFAULT_DECIMAL_WIDTH, DEFAULT_DECIMAL_SCALE, Option.getD_some, Option.getD_none] <;>
+   (repeat' split) <;> intro h <;> simp_all <;> (try subst h) <;> simp_all <;> omega)
 
 /-! ### what an accepted setting turns into -/
 
 /-- accepted ⇒ the globals hold the setting itself, with the disable value replaced by the documented
     maximum; and `get_decimal_type()` renders exactly these two numbers -/
-theorem accepted_applies_setting (w s : Option Int) (g : St) (h : Accepted w s g) :
-    let g' := (setDecimalConfig (envOf w s) g).1
-    g'.w = (if w.getD g.w = docWidthDisable then docWidthDisableMeans else w.getD g.w) ∧
-    g'.s = (if s.getD g.s = docScaleDisable then docScaleDisableMeans else s.getD g.s) ∧
-    decimalType g' = "DECIMAL(" ++ toString g'.w ++ "," ++ toString g'.s ++ ")" := by
+theorem accepted_applies_setting (w s : Option Int) (h : Accepted w s initial) :
+    (setDecimalConfig (envOf w s) initial).1.w
+        = (if w.getD docWidthDefault = docWidthDisable then docWidthDisableMeans else w.getD docWidthDefault) ∧
+    (setDecimalConfig (envOf w s) initial).1.s
+        = (if s.getD docScaleDefault = docScaleDisable then docScaleDisableMeans else s.getD docScaleDefault) ∧
+    decimalType (setDecimalConfig (envOf w s) initial).1
+        = "DECIMAL(" ++ toString (setDecimalConfig (envOf w s) initial).1.w ++ ","
+            ++ toString (setDecimalConfig (envOf w s) initial).1.s ++ ")" := by
   revert h
-  unfold Accepted setDecimalConfig
-  rw [envW, envS]
-  simp only [docWidthDisable, docWidthDisableMeans, docScaleDisable, docScaleDisableMeans,
-    MIN_DECIMAL_SCALE, MAX_DECIMAL_SCALE, MIN_DECIMAL_WIDTH, MAX_DECIMAL_WIDTH, DISABLE_VALUE, decimalType] at *
-  generalize w.getD g.w = W at *
-  by_cases hW : W = -1 <;> simp only [hW, if_true, if_false] <;>
-  generalize s.getD g.s = S at * <;>
-  by_cases hS : S = -1 <;> simp only [hS, if_true, if_false] <;>
-  (repeat' split) <;> intro h <;> simp_all
+  cases w <;> cases s <;> cfg
 
 /-- partial: an accepted setting whose width is within the documented maximum and not below its scale
     is a DECIMAL type DuckDB accepts -/
-theorem accepted_type_valid_partial (w s : Option Int) (g : St) (h : Accepted w s g) :
-    let g' := (setDecimalConfig (envOf w s) g).1
-    g'.w ≤ docWidthMax → g'.s ≤ g'.w → ValidDuckDecimal g' := by
+theorem accepted_type_valid_partial (w s : Option Int) (h : Accepted w s initial) :
+    (setDecimalConfig (envOf w s) initial).1.w ≤ docWidthMax →
+    (setDecimalConfig (envOf w s) initial).1.s ≤ (setDecimalConfig (envOf w s) initial).1.w →
+    ValidDuckDecimal (setDecimalConfig (envOf w s) initial).1 := by
   revert h
-  unfold Accepted setDecimalConfig ValidDuckDecimal
-  rw [envW, envS]
-  simp only [docWidthMax, MIN_DECIMAL_SCALE, MAX_DECIMAL_SCALE, MIN_DECIMAL_WIDTH, MAX_DECIMAL_WIDTH, DISABLE_VALUE] at *
-  generalize w.getD g.w = W at *
-  by_cases hW : W = -1 <;> simp only [hW, if_true, if_false] <;>
-  generalize s.getD g.s = S at * <;>
-  by_cases hS : S = -1 <;> simp only [hS, if_true, if_false] <;>
-  (repeat' split) <;> intro h <;> simp_all <;> omega
+  cases w <;> cases s <;> cfg
 
 /-- full: every accepted setting is a usable DECIMAL type — or the witness (width 6, scale 10: both
     documented, accepted, and DECIMAL(6,10) is refused by DuckDB) -/
 theorem accepted_type_valid_full_or_counter :
-    (∀ (w s : Option Int) (g : St), Accepted w s g → ValidDuckDecimal (setDecimalConfig (envOf w s) g).1) ∨
+    (∀ (w s : Option Int), Accepted w s initial → ValidDuckDecimal (setDecimalConfig (envOf w s) initial).1) ∨
     (WidthDoc docWidthMin ∧ ScaleDoc docScaleDefault ∧ Accepted (some docWidthMin) (some docScaleDefault) initial
       ∧ ¬ ValidDuckDecimal (setDecimalConfig (envOf (some docWidthMin) (some docScaleDefault)) initial).1) := by
   first
     | exact Or.inr (by decide +kernel)
-    | (left
-       intro w s g
-       unfold Accepted setDecimalConfig ValidDuckDecimal
-       rw [envW, envS]
-       simp only [docWidthMax, MIN_DECIMAL_SCALE, MAX_DECIMAL_SCALE, MIN_DECIMAL_WIDTH, MAX_DECIMAL_WIDTH, DISABLE_VALUE] at *
-       generalize w.getD g.w = W at *
-       by_cases hW : W = -1 <;> simp only [hW, if_true, if_false] <;>
-       generalize s.getD g.s = S at * <;>
-       by_cases hS : S = -1 <;> simp only [hS, if_true, if_false] <;>
-       (repeat' split) <;> intro h <;> simp_all <;> omega)
+    | (left; intro w s; cases w <;> cases s <;> cfg)
 
 /-! ### "Not defined → default" and the state a call leaves behind -/
-
-/-- states the module globals can be in after any sequence of calls (successful or not) -/
-inductive Reach : St → Prop
-  | init : Reach initial
-  | step (env : String → Option Int) (g : St) : Reach g → Reach (setDecimalConfig env g).1
 
 /-- first call of a process with both variables unset: the documented defaults -/
 theorem unset_uses_default_first_call :
     setDecimalConfig (envOf none none) initial = (⟨docWidthDefault, docScaleDefault⟩, none) := by
   decide +kernel
 
-/-- full: with both variables unset EVERY call uses the documented defaults, whatever happened before in
-    the process — or the witness: after one accepted call with width 30, an unset call keeps 30; after
-    one rejected call with width 3, an unset call is rejected as well (globals are overwritten before
-    they are validated, and are their own fallback). -/
-theorem unset_uses_default_full_or_counter :
-    (∀ g, Reach g → setDecimalConfig (envOf none none) g = (⟨docWidthDefault, docScaleDefault⟩, none)) ∨
-    (let g1 := (setDecimalConfig (envOf (some 30) none) initial).1
-     let g2 := (setDecimalConfig (envOf (some 3) none) initial).1
-     Accepted (some 30) none initial ∧ (setDecimalConfig (envOf none none) g1).1.w = 30 ∧
-     ¬ Accepted (some 3) none initial ∧ ¬ Accepted none none g2) := by
+/-- full: a call behaves the same whatever earlier calls of the process did (same verdict, and the same
+    globals when accepted) — so "unset" always means the documented default — or the witness: after one
+    accepted call with width 30, an unset call keeps 30; after one rejected call with width 3, an unset
+    call is rejected as well (the globals are overwritten before they are validated, and are their own
+    fallback). -/
+theorem no_carry_over_full_or_counter :
+    (∀ (w s : Option Int) (g : St),
+        (setDecimalConfig (envOf w s) g).2 = (setDecimalConfig (envOf w s) initial).2 ∧
+        ((setDecimalConfig (envOf w s) g).2 = none →
+          (setDecimalConfig (envOf w s) g).1 = (setDecimalConfig (envOf w s) initial).1)) ∨
+    (Accepted (some 30) none initial ∧
+     (setDecimalConfig (envOf none none) (setDecimalConfig (envOf (some 30) none) initial).1).1.w = 30 ∧
+     ¬ Accepted (some 3) none initial ∧
+     ¬ Accepted none none (setDecimalConfig (envOf (some 3) none) initial).1) := by
   first
     | exact Or.inr (by decide +kernel)
-    | (left
-       intro g _
-       unfold setDecimalConfig
-       rw [envW, envS]
-       decide +kernel)
+    | (left; intro w s g; cases w <;> cases s <;> cfg)
 
 /-! ### stored values: DECIMAL(w,s) as scaled integers -/
 
